@@ -8,6 +8,10 @@ Scenarios (each with an ExactDiag / analytic oracle or the documented contract):
   env_api     MPOEnvironment on random complex MPS: full_contraction at every bond (also explicit_plus_hc, bra != ket),
               init_LP / init_RP, get_initialization_data round trip; adjoint of OneSiteH / TwoSiteH; ZeroSiteH;
               from_LP_W0_RP
+  mixer       the decomposition itself: Mixer.mix_and_decompose_2site (DensityMatrixMixer and SubspaceExpansion) at every
+              bond of a random complex MPS for mix_left only / mix_right only / both, and mix_and_decompose_1site for
+              both directions: isometry of the tensor that is kept, U S VH reproduces theta, the kept bond contains
+              the expansion directions LP W theta (resp. theta W RP) computed independently, both mixers agree
   inf_env     infinite: MPOTransferMatrix.find_init_LP_RP and MPOEnvironmentBuilder.init_LP_RP_iterative energy density,
               environment_sweeps, start_env / start_env_sites / update_env
 """
@@ -15,7 +19,8 @@ import numpy as np
 
 from harness import c13_lib as L
 
-SCENARIOS = ['excited', 'excited', 'excited', 'resume', 'resume', 'env_api', 'env_api', 'env_api', 'segment', 'inf_env']
+SCENARIOS = ['excited', 'excited', 'excited', 'resume', 'resume', 'env_api', 'env_api', 'env_api', 'segment', 'inf_env',
+             'mixer', 'mixer', 'mixer']
 
 
 def gen_case(rng, quick=True):
@@ -43,6 +48,11 @@ def gen_case(rng, quick=True):
         case['opts']['update_env'] = rng.choice([0, 1])
     if sc == 'env_api' and rng.random() < 0.4:
         case['model']['explicit_plus_hc'] = True
+    if sc == 'inf_env':
+        case['opts']['inf_mixer'] = rng.choice([True, True, 'SubspaceExpansion', 'SubspaceExpansion'])
+    if sc == 'mixer':
+        case['opts']['amplitude'] = rng.choice([0.5, 0.1, 1e-2])
+        case['chi'] = rng.choice([1, 2, 3, 4])
     return case
 
 
@@ -51,7 +61,8 @@ def run_api_case(case):
     fails = []
     out = {'sweeps_done': 2}
     try:
-        {'excited': sc_excited, 'resume': sc_resume, 'segment': sc_segment, 'env_api': sc_env, 'inf_env': sc_inf}[
+        {'excited': sc_excited, 'resume': sc_resume, 'segment': sc_segment, 'env_api': sc_env, 'inf_env': sc_inf,
+         'mixer': sc_mixer}[
             case['scenario']](case, fails)
     except Exception as e:  # noqa
         import traceback
@@ -269,8 +280,8 @@ def sc_env(case, fails):
     M = L.build_model(kind, p)
     Lc = p['L']
     np.random.seed(case['nseed'])
-    psi = MPS.from_random_unitary_evolution(M.lat.mps_sites(), 3, case['init'], bc='finite', dtype=complex)
-    phi = MPS.from_random_unitary_evolution(M.lat.mps_sites(), 3, case['init'], bc='finite', dtype=complex)
+    psi = L.random_mps(M, case['init'], 3)
+    phi = L.random_mps(M, case['init'], 3)
     pref = dict(p)
     pref.pop('explicit_plus_hc', None)
     ed = _ed(L.build_model(kind, pref), psi)
@@ -355,8 +366,8 @@ def sc_inf(case, fails):
     Lc = p['L']
     e0 = L.e0_tfi(p['g'], p['J'])
     psi = MPS.from_lat_product_state(M.lat, [['up']])
-    o = dict(mixer=True, max_E_err=1e-10, trunc_params=dict(chi_max=20, svd_min=1e-10), max_trunc_err=None, max_sweeps=80,
-             start_env=case['opts']['start_env'], update_env=case['opts']['update_env'], N_sweeps_check=4,
+    o = dict(mixer=case['opts'].get('inf_mixer', True), max_E_err=1e-10, trunc_params=dict(chi_max=20, svd_min=1e-10),
+             max_trunc_err=None, max_sweeps=80, start_env=case['opts']['start_env'], update_env=case['opts']['update_env'], N_sweeps_check=4,
              combine=case['opts']['combine'])
     if case['opts']['start_env_sites'] is not None:
         o['start_env_sites'] = case['opts']['start_env_sites']
@@ -409,3 +420,172 @@ def sc_inf(case, fails):
     if abs(Eit - E_bond) > 1e-7:
         fails.append(('inf.init_LP_RP_iterative.energy-per-site', f'{Eit!r} vs bond energy {E_bond!r} (L={Lc})'))
     MPOEnvironment(psi, M.H_MPO, psi, **data2).test_sanity()
+
+
+def sc_mixer(case, fails):
+    """The decomposition with a mixer, called directly at every bond of a random complex MPS (nothing is truncated):
+
+    * the tensor that would be kept and contracted into the environment (U for mix_left, VH for mix_right) is an isometry;
+    * U S VH is theta (up to the documented rescaling);
+    * the kept bond is the EXPANDED one: the column space of U contains LP W0[:, w] theta for every MPO index w that
+      the mixers include (all but IdR), the row space of VH contains theta W1[w, :] RP (all but IdL) — computed here
+      from LP/RP and the W tensors, not with the mixer helpers;
+    * DensityMatrixMixer and SubspaceExpansion give the same kept spaces (documented as equivalent)."""
+    from tenpy.algorithms import dmrg
+    from tenpy.algorithms.mps_common import DensityMatrixMixer, SubspaceExpansion
+    import tenpy.linalg.np_conserved as npc
+    kind, p = case['kind'], dict(case['model'])
+    p.pop('explicit_plus_hc', None)
+    M = L.build_model(kind, p)
+    Lc = p['L']
+    np.random.seed(case['nseed'])
+    psi = L.random_mps(M, case['init'], case['chi']) if case['chi'] > 1 else L.random_mps(M, case['init'], 1, rounds=0)
+    amp = case['opts']['amplitude']
+    H = M.H_MPO
+
+    def dense_cols(T, first):     # npc matrix (a, b) -> ndarray
+        return T.to_ndarray()
+
+    def span_defect(Q, X, weight=1.0):
+        """weight (in units of the normalised theta) of the part of the columns of X outside the column space of
+        the isometry Q; the truncation (svd_min = 1e-7 here) may drop directions below its threshold"""
+        return float(weight * np.linalg.norm(X - Q @ (Q.conj().T @ X)))
+
+    spaces = {}
+    for mixname, mixcls in (('DensityMatrixMixer', DensityMatrixMixer), ('SubspaceExpansion', SubspaceExpansion)):
+        for combine in ((False, True) if case['opts']['combine'] else (False,)):
+            o = {'mixer': mixname, 'mixer_params': {'amplitude': amp, 'decay': 1.0, 'disable_after': 100},
+                 'trunc_params': {'chi_max': 10000, 'svd_min': 1e-7}, 'combine': combine}
+            eng = dmrg.TwoSiteDMRGEngine(psi.copy(), M, o)
+            if eng.mixer is None:
+                eng.mixer_activate()
+            if not isinstance(eng.mixer, mixcls):
+                fails.append(('mixer.option-selects-another-class', f'{mixname}: {type(eng.mixer).__name__}'))
+                continue
+            for i0 in range(Lc - 1):
+                for move_right in (True, False):
+                    eng.i0, eng.move_right, eng.update_LP_RP = i0, move_right, (move_right, not move_right)
+                    theta = eng.prepare_svd(eng.prepare_update_local())
+                    th = theta.to_ndarray()                          # rows (vL.p0), columns (p1.vR)
+                    th = th / np.linalg.norm(th)
+                    # independent expansion directions
+                    LP, RP = eng.env.get_LP(i0), eng.env.get_RP(i0 + 1)
+                    W0, W1 = H.get_W(i0), H.get_W(i0 + 1)
+                    IdL, IdR = H.get_IdL(i0 + 1), H.get_IdR(i0)
+                    t4 = psi.get_theta(i0, n=2)                      # vL, p0, p1, vR
+                    lw = npc.tensordot(LP, W0, axes=['wR', 'wL'])    # vR*, vR, wR, p, p*
+                    lx = npc.tensordot(lw, t4, axes=[['vR', 'p*'], ['vL', 'p0']])     # vR*, wR, p, p1, vR
+                    lx = lx.replace_labels(['vR*', 'p'], ['vL', 'p0']).combine_legs([['vL', 'p0'], ['p1', 'vR']], qconj=[+1, -1])
+                    lx.itranspose(['(vL.p0)', 'wR', '(p1.vR)'])
+                    rw = npc.tensordot(W1, RP, axes=['wR', 'wL'])    # wL, p, p*, vL, vL*
+                    rx = npc.tensordot(t4, rw, axes=[['p1', 'vR'], ['p*', 'vL']])     # vL, p0, wL, p, vL*
+                    rx = rx.replace_labels(['vL*', 'p'], ['vR', 'p1']).combine_legs([['vL', 'p0'], ['p1', 'vR']], qconj=[+1, -1])
+                    rx.itranspose(['(vL.p0)', 'wL', '(p1.vR)'])
+                    # bring the pipes to the ones of theta (same legs, so the dense index order agrees)
+                    lxd, rxd = lx.to_ndarray(), rx.to_ndarray()
+                    if lxd.shape[0] != th.shape[0] or lxd.shape[2] != th.shape[1]:
+                        fails.append(('mixer.harness.shape', f'{lxd.shape} vs {th.shape}'))
+                        return
+                    # (sanity of the independent contraction: the index IdL of W0 / IdR of W1 gives theta itself)
+                    nt = np.linalg.norm(t4.to_ndarray())
+                    wgt = np.sqrt(amp) / nt
+                    if IdL is not None and np.linalg.norm(lxd[:, IdL, :] / nt - th) > 1e-9:
+                        fails.append(('mixer.harness.reference-expansion', f'IdL column differs from theta at i0={i0}'))
+                        return
+                    XL = [lxd[:, w, :] for w in range(lxd.shape[1]) if w != IdR and w != IdL]
+                    XR = [rxd[:, w, :] for w in range(rxd.shape[1]) if w != IdL and w != IdR]
+                    qtot = [psi.get_B(i0, form=None).qtotal, theta.qtotal - psi.get_B(i0, form=None).qtotal]
+                    for mix_left, mix_right in ((True, False), (False, True), (True, True)):
+                        tag = f'{mixname} i0={i0}/{Lc} combine={combine} move_right={move_right} mix_left={mix_left} mix_right={mix_right} amplitude={amp}'
+                        try:
+                            U, S, VH, err, S_a = eng.mixer.mix_and_decompose_2site(eng, theta.copy(), i0, mix_left, mix_right, qtot)
+                        except ZeroDivisionError:
+                            continue
+                        Ud, Vd = U.to_ndarray(), VH.to_ndarray()
+                        Sd = S.to_ndarray() if isinstance(S, npc.Array) else np.diag(np.asarray(S))
+                        if Ud.shape[0] != th.shape[0] or Vd.shape[1] != th.shape[1]:
+                            fails.append(('mixer.decomposition-has-other-legs-than-theta', tag))
+                            continue
+                        key = (i0, combine if False else 0, mix_left, mix_right)
+                        if mix_left:
+                            d = np.linalg.norm(Ud.conj().T @ Ud - np.eye(Ud.shape[1]))
+                            if d > 1e-9:
+                                fails.append(('mixer.mix_left.U-is-not-an-isometry', f'{tag}: |U^H U - 1| = {d:.2e}'))
+                                continue
+                            worst = max([span_defect(Ud, th)] + [span_defect(Ud, X, wgt) for X in XL])
+                            if worst > 1e-5:
+                                fails.append(('mixer.mix_left.kept-bond-does-not-contain-the-expansion',
+                                              f'{tag}: weight of theta / LP W theta outside span(U): {worst:.2e}; bond dimension {Ud.shape[1]}'))
+                            spaces.setdefault(key + ('U',), {})[mixname] = Ud @ Ud.conj().T
+                        if mix_right:
+                            d = np.linalg.norm(Vd @ Vd.conj().T - np.eye(Vd.shape[0]))
+                            if d > 1e-9:
+                                fails.append(('mixer.mix_right.VH-is-not-an-isometry', f'{tag}: |VH VH^H - 1| = {d:.2e}'))
+                                continue
+                            Q = Vd.conj().T
+                            worst = max([span_defect(Q, th.conj().T)] + [span_defect(Q, X.conj().T, wgt) for X in XR])
+                            if worst > 1e-5:
+                                fails.append(('mixer.mix_right.kept-bond-does-not-contain-the-expansion',
+                                              f'{tag}: weight of theta / theta W RP outside span(VH): {worst:.2e}; bond dimension {Vd.shape[0]}'))
+                            spaces.setdefault(key + ('VH',), {})[mixname] = Q @ Q.conj().T
+                        rec = Ud @ Sd @ Vd
+                        nr = np.linalg.norm(rec)
+                        if nr < 1e-12 or np.linalg.norm(rec / nr - th) > 1e-7:
+                            fails.append(('mixer.U-S-VH-is-not-theta', f'{tag}: |U S VH / norm - theta| = {np.linalg.norm(rec / max(nr, 1e-300) - th):.2e}'))
+        # single-site decomposition (only mixers that implement it)
+        if mixcls.can_decompose_1site:
+            o1 = {'mixer': mixname, 'mixer_params': {'amplitude': amp, 'decay': 1.0, 'disable_after': 100},
+                  'trunc_params': {'chi_max': 10000, 'svd_min': 1e-7}, 'combine': False}
+            eng = dmrg.SingleSiteDMRGEngine(psi.copy(), M, o1)
+            if eng.mixer is None:
+                eng.mixer_activate()
+            for i0 in range(Lc):
+                for move_right in (True, False):
+                    if (move_right and i0 == Lc - 1) or (not move_right and i0 == 0):
+                        continue
+                    eng.i0, eng.move_right, eng.update_LP_RP = i0, move_right, (move_right, not move_right)
+                    theta = eng.prepare_svd(eng.prepare_update_local())
+                    th = theta.to_ndarray()
+                    th = th / np.linalg.norm(th)
+                    tag = f'{mixname} 1-site i0={i0}/{Lc} move_right={move_right} amplitude={amp}'
+                    U, S, VH, err = eng.mixer.mix_and_decompose_1site(eng, theta.copy(), i0, move_right)
+                    Ud, Vd = U.to_ndarray(), VH.to_ndarray()
+                    Sd = S.to_ndarray() if isinstance(S, npc.Array) else np.diag(np.asarray(S))
+                    T = Ud if move_right else Vd.conj().T
+                    d = np.linalg.norm(T.conj().T @ T - np.eye(T.shape[1]))
+                    if d > 1e-9:
+                        fails.append(('mixer.1site.kept-tensor-is-not-an-isometry', f'{tag}: {d:.2e}'))
+                        continue
+                    rec = Ud @ Sd @ Vd
+                    nr = np.linalg.norm(rec)
+                    if rec.shape != th.shape or np.linalg.norm(rec / max(nr, 1e-300) - th) > 1e-7:
+                        fails.append(('mixer.1site.U-S-VH-is-not-theta', f'{tag}'))
+                    # expansion: LP W0 theta (right move) / theta W0 RP (left move)
+                    LP, RP, W0 = eng.env.get_LP(i0), eng.env.get_RP(i0), H.get_W(i0)
+                    t3 = psi.get_theta(i0, n=1)                        # vL, p0, vR
+                    wgt = np.sqrt(amp) / np.linalg.norm(t3.to_ndarray())
+                    if move_right:
+                        IdL, IdR = H.get_IdL(i0 + 1), H.get_IdR(i0)
+                        lw = npc.tensordot(LP, W0, axes=['wR', 'wL'])
+                        x = npc.tensordot(lw, t3, axes=[['vR', 'p*'], ['vL', 'p0']]).replace_labels(['vR*', 'p'], ['vL', 'p0'])
+                        x = x.combine_legs(['vL', 'p0'], qconj=+1).itranspose(['(vL.p0)', 'wR', 'vR']).to_ndarray()
+                        Xs = [x[:, w, :] for w in range(x.shape[1]) if w not in (IdL, IdR)]
+                    else:
+                        IdL, IdR = H.get_IdL(i0), H.get_IdR(i0 - 1)
+                        rw = npc.tensordot(W0, RP, axes=['wR', 'wL'])
+                        x = npc.tensordot(t3, rw, axes=[['p0', 'vR'], ['p*', 'vL']]).replace_labels(['vL*', 'p'], ['vR', 'p0'])
+                        x = x.combine_legs(['p0', 'vR'], qconj=-1).itranspose(['vL', 'wL', '(p0.vR)']).to_ndarray()
+                        Xs = [x[:, w, :].conj().T for w in range(x.shape[1]) if w not in (IdL, IdR)]
+                    ref = th if move_right else th.conj().T
+                    if Xs and Xs[0].shape[0] == T.shape[0]:
+                        worst = max([span_defect(T, ref)] + [span_defect(T, X, wgt) for X in Xs])
+                        if worst > 1e-5:
+                            fails.append(('mixer.1site.kept-bond-does-not-contain-the-expansion', f'{tag}: {worst:.2e}'))
+    for key, d in spaces.items():
+        if len(d) == 2:
+            a, b = d['DensityMatrixMixer'], d['SubspaceExpansion']
+            if a.shape != b.shape or np.linalg.norm(a - b) > 1e-6:
+                fails.append(('mixer.the-two-mixers-keep-different-spaces',
+                              f'(i0, -, mix_left, mix_right, tensor) = {key}: |P_DM - P_SE| = {np.linalg.norm(a - b):.2e}, '
+                              f'dimensions {int(round(np.trace(a).real))} vs {int(round(np.trace(b).real))}'))
+                break
